@@ -9,7 +9,7 @@ cd $D/h
 RUSTFLAGS="-C instrument-coverage" CARGO_NET_OFFLINE=true cargo +nightly build --offline 2>&1 | tail -1
 LLVM_PROFILE_FILE="$D/h-%p-%m.profraw" ./target/debug/harness run --tier ${TIER:-quick} --seed ${VERIF_SEED:-1} --driver none --out $D/o.json --replay-dir $D/rr >/dev/null 2>&1
 $B/llvm-profdata merge -sparse $D/*.profraw -o $D/all.profdata
-$B/llvm-cov report ./target/debug/harness -instr-profile=$D/all.profdata --ignore-filename-regex='(registry|rustc|verif_cov)' 2>/dev/null | grep -E "^repo|^TOTAL|Filename"
+$B/llvm-cov report ./target/debug/harness -instr-profile=$D/all.profdata --ignore-filename-regex='(registry|rustc|verif_cov)' 2>/dev/null | grep -E "repo/|^TOTAL|Filename"
 if [ -n "$1" ]; then
   for f in "$@"; do echo "=== uncovered lines of $f"; $B/llvm-cov show ./target/debug/harness -instr-profile=$D/all.profdata /repo/$f --show-line-counts-or-regions 2>/dev/null | awk -F'|' '$2 ~ /^ *0$/ {print $1"|"$3}' | cut -c1-150; done
 fi
